@@ -29,6 +29,10 @@ var keyIDs = map[interface{}]int{}
 func init() { OnReset(func() { keyIDs = map[interface{}]int{} }) }
 
 // NoteKey numbers k (first come, first numbered) and returns it.
+// ZeroKV returns the zero values of the key and element types of m: a rewritten
+// `for k, v := range m` declares its (shared) loop variables with them.
+func ZeroKV[M ~map[K]V, K comparable, V any](m M) (k K, v V) { return }
+
 func NoteKey[K comparable](k K) K {
 	if _, ok := keyIDs[k]; !ok {
 		keyIDs[k] = len(keyIDs) + 1
